@@ -90,8 +90,10 @@ func main() {
 			g.genTrie(rnd.Fork(2), thorough, o.Budget)
 			g.genService(rnd.Fork(3), thorough, o.Budget)
 			g.genReceive(rnd.Fork(4), thorough, o.Budget)
+			g.genServiceNoSideEffects(rnd.Fork(9), thorough, o.Budget)
 		}
 		g.genClient(rnd.Fork(5), thorough, o.Budget)
+		g.genClientNoSideEffects(rnd.Fork(8), thorough, o.Budget)
 		g.genSign(rnd.Fork(6), thorough, o.Budget)
 		g.genDedup(rnd.Fork(7), thorough, o.Budget)
 	}
